@@ -836,5 +836,52 @@ theorem goStrBody_valid (l : GoString) (h : utf8Valid l = true) : goStrBody l = 
   | case8 => cases h
   | case9 => cases h
 
+/-! ### the label body as `URL.String` writes it (`rewriteBrace`) -/
+
+/-- the string reader decodes the escape backslash-u-0-0-7-b to the byte `{`: reading a body
+whose leading `{` was rewritten gives what reading the body itself gives -/
+theorem parseStrBody_rewriteBrace (v r : GoString) :
+    parseStrBody (rewriteBrace v ++ r) = parseStrBody (v ++ r) := by
+  unfold rewriteBrace
+  split
+  · rename_i t
+    have h1 := JsonL.parseStrBody_u00 123 (t ++ r) (by decide)
+    have e : escU00 123 = [92, 117, 48, 48, 55, 98] := by decide
+    rw [e] at h1
+    rw [List.append_assoc, h1, List.cons_append,
+      JsonL.parseStrBody_plain 123 (t ++ r) (by decide) (by decide) (by decide)]
+  · rfl
+
+/-- a quoted text is read by the string reader alone (the fuel of the value reader plays no
+part) -/
+theorem parseJson_quoted (t : GoString) :
+    parseJson (34 :: t) = match parseStrBody t with
+      | some (s, []) => some (.str s)
+      | _ => none := by
+  have h : isNumByte 34 = false := by decide
+  unfold parseJson
+  rw [show 2 * (34 :: t).length + 2 = (2 * (34 :: t).length + 1) + 1 from rfl, parseValue.eq_def]
+  simp only [h]
+  cases hp : parseStrBody t with
+  | none => simp
+  | some p =>
+    obtain ⟨s, r⟩ := p
+    cases r <;> simp
+
+/-- `json.Unmarshal("\"" + v + "\"", &label)` does not see the rewrite of a leading `{`:
+for EVERY value `v` -/
+theorem labelDec_rewriteBrace (v : GoString) : labelDec (rewriteBrace v) = labelDec v := by
+  unfold labelDec
+  rw [parseJson_quoted, parseJson_quoted, parseStrBody_rewriteBrace]
+
+/-- the label is recovered from the body `URL.String` writes, leading `{` included -/
+theorem labelDec_labelBodyEmitted (l : GoString) : labelDec (labelBodyEmitted l) = some l := by
+  unfold labelBodyEmitted
+  rw [labelDec_rewriteBrace]
+  have h := JsonL.parseJson_render (.str l) (by simp only [Json.numsOk])
+  simp only [Json.render, renderStr] at h
+  unfold labelDec labelBody
+  rw [h]
+
 end FjL
 end Jsonapi
